@@ -8,7 +8,7 @@ ALL = ["C%02d" % i for i in range(1, 21)]
 # id -> (engine, category, technique, text, note, design_ref)
 CHECKS = {
  "C01": ("E-ENUM", "model_checking", "bounded-exhaustive enumeration of path programs x documents; every trace of an executable reference model replayed against the implementation",
-         "Every path of the bounded step-sequence ladders is rendered, parsed by the real Parse and evaluated on every JSON document up to the node bound in both decodings; values, order and multiplicity must equal the reference model's, and the call must fail exactly when the model selects nothing. Coverage is total inside the bound and silent outside it.",
+         "Every path of the bounded step-sequence ladders (plus every filter atom and pairwise combination under $.c) is rendered, parsed by the real Parse and evaluated on every JSON document up to the node bound, on wide two-level documents (also with shared containers) and on member documents, in both decodings; values, order and multiplicity must equal the reference model's, and the call must fail exactly when the model selects nothing. Coverage is total inside the bound and silent outside it.",
          "Trusted: the reference model h/spec (transcribes DESIGN.md Appendix A), the renderer, Go's reflect/encoding/json. Cases the property statements leave open are skipped and counted.", "DESIGN.md §4 C01"),
  "C03": ("E-ENUM", "model_checking", "bounded-exhaustive enumeration of path programs x documents with an invariant checked on every execution",
          "The same bounded product as C01; on every execution the invariant 'no panic; non-empty result xor nil slice with one of the three documented runtime error types; ErrorFunctionFailed only if a user function failed; never an empty success' is evaluated.",
@@ -17,13 +17,13 @@ CHECKS = {
          "For every failing pair of the C01 product the reported error (type and full text: step as written, expected kind, found Go type) must be one of the failures the model records at the deepest failing position, a missing member or failed function outranking a type mismatch; for single-valued paths that set is a singleton, so the comparison is exact.",
          "Trusted: the reference model's failure bookkeeping and the renderer's per-step text.", "DESIGN.md §4 C15"),
  "C11": ("E-ENUM", "model_checking", "complete enumeration of the small slice/index space plus integer-boundary cross product against a big-integer Python-slice model (itself recomputed by python3)",
-         "All start/end/step in {omitted} U [-7..7] on lengths 0..6 and every combination of integer-boundary magnitudes are evaluated, alone, inside a union and after recursive descent; the selected elements must equal Python's slice semantics, no index may fall outside the array, and integers outside the int range must be rejected by Parse with ErrorInvalidArgument. The small space is covered completely, not sampled.",
+         "All start/end/step in {omitted} U [-7..7] on lengths 0..6 and every combination of integer-boundary magnitudes are evaluated, alone, inside a union, after recursive descent and nested (every pair of 216 small slices on arrays of arrays); the selected elements must equal Python's slice semantics, no index may fall outside the array, and integers outside the int range must be rejected by Parse with ErrorInvalidArgument. The small space is covered completely, not sampled.",
          "Trusted: spec.PySlice (cross-checked against the real python3 over the whole table on every run), arrays holding their own indices.", "DESIGN.md §4 C11"),
  "C12": ("E-ENUM", "exploration", "bounded-exhaustive enumeration with a relational oracle between two runs of the implementation (plain vs accessor mode)",
          "Every path of the ladders (functions after every step kind and inside filter operands) is parsed twice, with and without accessor mode, with identical recording function sets, and evaluated on every document of the bound; result count, Get() values, error type/text and the recorded function arguments must coincide.",
          "Trusted: the recording wrappers; no reference model is involved.", "DESIGN.md §4 C12"),
  "C13": ("E-ENUM", "model_checking", "bounded-exhaustive enumeration of paths x documents x result index; location oracle from the reference model, structural diff after every Set",
-         "For every accessor of every result: Get() equals the selected value; Set(sentinel) makes exactly the model's (container,key|index) hold the sentinel and leaves the rest of the document equal to an untouched copy; Get() then returns it; an in-place update of the location is seen by Get(); Set is nil exactly for the root and function outputs.",
+         "For every accessor of every result, after an unrelated accessor-mode retrieval has been made in between: Get() equals the selected value; Set(sentinel) makes exactly the model's (container,key|index) hold the sentinel and leaves the rest of the document equal to an untouched copy; Get() then returns it; an in-place update of the location is seen by Get(); Set is nil exactly for the root and function outputs.",
          "Trusted: the reference model's locations (h/spec), the unique sentinel, the structural equality used for the diff.", "DESIGN.md §4 C13"),
  "C14": ("E-ENUM", "model_checking", "bounded-exhaustive enumeration of function sequences after every step-kind prefix and inside filter operands; recorded call logs compared per occurrence with the reference model",
          "Every navigation prefix of the bound is followed by every sequence of 1..3 functions out of {f, id, e, g, cnt, eg}, each occurrence under its own alias; values, errors (deepest failing step, ErrorFunctionFailed naming a failed function) and the per-occurrence call log (argument, order, count) must equal the model's.",
@@ -32,7 +32,7 @@ CHECKS = {
          "Every short path (all comparison atoms, functions) is evaluated on every small document in which one leaf (or the root, or two leaves) is replaced by a non-JSON value; the model treats such a value as an opaque scalar, so values, failure and the ErrorTypeUnmatched text naming the Go type must agree, and nothing may panic.",
          "Trusted: the reference model (no special case for non-JSON values), identity comparison for reference kinds.", "DESIGN.md §4 C20"),
  "C04": ("E-ENUM", "exploration", "bounded-exhaustive enumeration of filter-heavy paths x documents x {plain, accessor}; invariant (deep snapshot before = after) checked on every execution",
-         "Every atom, every pairwise && / || combination and depth-3 shape of the filter alphabet is placed as a filter in 7 positions, plus all short paths of every step kind; after every call, successful or not, in plain and accessor mode, the caller's document is compared structurally with an untouched copy.",
+         "Every atom, every pairwise && / || combination and depth-3 shape of the filter alphabet is placed as a filter in 8 positions, plus all short paths of every step kind; after every call, successful or not, in plain and accessor mode and in both decodings, the caller's document - and the document of the previous call, to catch recycled buffers that alias caller memory - is compared structurally with an untouched copy.",
          "Trusted: the structural comparison; a difference is confirmed on a fresh document and fresh Parse before it is reported. The shared-between-goroutines clause is C06's.", "DESIGN.md §4 C04"),
  "C08": ("E-ENUM", "exploration", "bounded-exhaustive enumeration of every decomposition of every path, with a relational oracle over three or more retrievals of the implementation",
          "For every path of the bound and every split point, every recursive-descent step and every union / multi-name selector, the whole path must return exactly the concatenation, in order, of the continuation applied to each value (or each container in pre-order) selected by the prefix, and fail exactly when that concatenation is empty.",
@@ -47,7 +47,7 @@ CHECKS = {
          "Every key of up to 3 chunks (all ASCII symbol classes, controls, 2/3/4-byte characters, escape-like literal texts) is looked up in 5-7 spellings (minimal and full \\uXXXX escaping in both quote styles, dot notation with escapes, lone surrogates) at the root, after .., as a filter operand and between two steps, alone and among siblings that differ only by escape characters; exactly the member's value must come back.",
          "Trusted: Go map lookup as the oracle, the harness's own escapers.", "DESIGN.md §4 C16"),
  "C18": ("E-ENUM", "exploration", "bounded-exhaustive enumeration of path ASTs x every spelling deviating at one (thorough: two) optional sites x documents, relational oracle canonical vs variant",
-         "For every path AST of the bound every spelling that differs from the canonical one at one optional site (spaces at each position the grammar allows, quote style, +/leading zeros, dot vs bracket, .* vs [*], omitted $) is parsed and evaluated on every document; values must be equal, or errors of the same type naming the same step.",
+         "For every path AST of the bound every spelling that differs from the canonical one at one (thorough: two) optional site(s); spellings that omit the leading $ are also compared in accessor mode; sites: (spaces at each position the grammar allows, quote style, +/leading zeros, dot vs bracket, .* vs [*], omitted $) is parsed and evaluated on every document; values must be equal, or errors of the same type naming the same step.",
          "Trusted: the renderer's list of optional sites (derived from jsonpath.peg by hand), the mapping of error texts to step indices.", "DESIGN.md §4 C18"),
  "C02": ("E-ENUM", "exploration", "bounded-exhaustive enumeration of strings (token sequences, grammar sentences, all one-token mutants, pumped sentences, the suite's paths) x configs, each Parse in an isolated worker process; totality invariant on every execution",
          "Every string of the enumerated sets is parsed with and without registered functions/accessor mode inside crash-isolated single-threaded workers (a fatal stack overflow is attributed to the single responsible string); Parse must return, and yield exactly one of (function, nil) or (nil, one of the four documented error types); an accepted function is called on three documents and must not panic.",
@@ -56,16 +56,16 @@ CHECKS = {
          "For every string of the C02 sets the grammar file is interpreted with pure PEG semantics, the surviving actions are replayed in order through an action model that raises the documented restrictions, and the library must accept exactly when the model accepts, raise the same error class (first in action order) and produce the same error text: position = character offset of the longest accepted prefix, near = the rest of the path from that character.",
          "Trusted: the PEG interpreter h/pegi (its reading of every rule is compared with peg's own normal form in its tests), the action model h/pmodel (actions recognised by source text; degrades to acceptance-and-position checking if an action is unknown), Go's strconv/regexp/encoding/json for validity.", "DESIGN.md §4 C17, §2.5"),
  "C05": ("E-HIST", "model_checking", "exhaustive exploration of call histories x pool answers (deviation-bounded) on the real package state, instrumented build",
-         "For every path of the bound every history of up to 3 (thorough 4) operations over {call on 4-5 outcome-flipping documents, unrelated Retrieve cycling both pools, scribble on the last result} is executed on a freshly parsed function with every pool answer sequence of at most 1 (2) deviations; each call must equal a fresh Retrieve, earlier result slices must never change, documents stay intact.",
+         "For every path of the bound (ladder paths also in accessor mode) every history of up to 3 (thorough 4) operations over {call on 4-5 documents chosen to flip the outcome, unrelated Retrieve cycling both pools, scribble on the last result} is executed on a freshly parsed function with every pool answer sequence of at most 1 (2) deviations; each call must equal a fresh Retrieve, earlier result slices (accessors through Get) must never change, documents stay intact.",
          "Trusted: the instrumented build (sync.Pool replaced by an explorer-owned free list), replay of a failing execution before it is reported. Histories beyond the bound are not covered.", "DESIGN.md §4 C05"),
  "C06": ("E-SCHED", "model_checking", "stateless exploration of all thread interleavings and pool answers of small closed drivers under a controlled cooperative scheduler with iterative preemption bounding; separate free-running -race pass",
-         "197 two- and three-thread drivers (shared parsed functions on outcome-flipping documents, Parse||Parse over failing and succeeding paths and configs, Parse||call, two functions on one document, two operations per thread) are explored over every schedule with <=1 deviation at every scheduling point and <=2 at coarse points (thorough: 2 / 3); every call must return its run-alone result, no deadlock or panic, shared documents and functions intact afterwards. The same bodies run free under the race detector with 2..24 goroutines.",
+         "About 210 two- and three-thread drivers (shared parsed functions on outcome-flipping documents, Parse||Parse over failing and succeeding paths and configs, Parse||call, two functions on one document, two operations per thread) are explored over every schedule with <=1 deviation at every scheduling point and <=2 at coarse points (thorough: 2 / 3); every call must return its run-alone result, no deadlock or panic, shared documents and functions intact afterwards. The same bodies run free under the race detector with 2..24 goroutines.",
          "Trusted: scheduling points (lock/pool operations and every named function entry, inserted mechanically) are sufficient only together with the race pass, which is a sampled happens-before detector. More than 3 threads and weak-memory effects are outside the exhaustive part.", "DESIGN.md §4 C06, Appendix B"),
  "C07": ("E-HIST", "model_checking", "exhaustive enumeration of map iteration orders (owned by the explorer through the instrumented build) x documents with adversarial keys x paths, against the reference model's order",
-         "For 16 paths with wildcard, filter, recursive, multi-name and aggregate steps and every object over 2..4-key subsets of 12 adversarial keys (plus 5..12-key objects), every iteration order at one (thorough: two) of the map ranges executed is explored, optionally after an evaluation on a larger or smaller map with pool answers enumerated; the result sequence must equal the model's in every execution.",
+         "For 16 paths with wildcard, filter, recursive, multi-name and aggregate steps and every object over 2..4-key subsets of 12 adversarial keys (plus 5..12-key objects and documents with shared containers), every iteration order at one (thorough: two) of the map ranges executed is explored, also after evaluations on maps of other sizes (pool recycling, pool answers enumerated) and after editing the same map in place; the result sequence must equal the model's in every execution.",
          "Trusted: vinstr's rewriting of every range over a string-keyed map (it reports ranges it cannot control), the reference model's ascending byte order.", "DESIGN.md §4 C07"),
  "C19": ("E-HIST", "model_checking", "exhaustive exploration of Parse call histories (depth-bounded, no deduplication) plus explicit-state BFS on a canonical hash of all package globals to a fixpoint; references from fresh subprocesses",
-         "Every history of up to 3 (thorough 4) operations over 105 Parse operations (15 paths failing at every action x 7 configs), 'rebind f in a used Config' and 're-call an earlier function' is replayed; every outcome - exact error, or behavioural fingerprint of the returned function - must equal the same operation performed first in a fresh process. A breadth-first search over the hashed global state reaches a fixpoint (15 states today).",
+         "Every history of up to 3 (thorough 4) operations over 133 Parse operations (19 paths, plain / root omitted / failing at every action / failing inside a filter parameter, x 7 configs), 'rebind f in a used Config' and 're-call an earlier function' is replayed; every outcome - exact error, or behavioural fingerprint of the returned function - must equal the same operation performed first in a fresh process. A breadth-first search over the hashed global state reaches a fixpoint. A mismatch is reduced, in fresh processes, to a short operation sequence that reproduces it.",
          "Trusted: the fingerprint (4 probe documents, accessor-ness, function behaviour); state hidden in closures of the generated matcher is outside the hash (the depth-bounded part does not depend on it).", "DESIGN.md §4 C19"),
 }
 
